@@ -17,8 +17,14 @@
      C20_expire_loop_clean, C20_no_panic_endblock
                             inside EndBlock slash is never Err / Panic and refund_fee never
                             fails: the dropped errors do not exist (needs NO exclusion)
+     C20_end_block_strict, C20_handle_strict, C20_end_block_never_fails
+                            the EndBlock that propagates every error instead of dropping it
+                            returns Ok of exactly the state the model's EndBlock computes
      C20_K1_*_refuted       without X-K1 the message theorem is false (finding K1)
-     C20_due_sorted_perm, C20_due_sorted, C20_step_deterministic
+     C20_due_sorted_perm, C20_due_sorted, C20_due_canonical, C20_step_deterministic
+   No panic path was found that Inv + X-K1 do not exclude.  The message theorem does not use
+   wf_op (H-txid, X-K2 play no role in panics); it is kept in the statement because the
+   invariant it assumes is only known for states reached through wf_op operations.
 
    The exclusion X-K1: why two forms.
    [k1_op cfg s o] is the weakest hypothesis under which the message theorem holds: it
